@@ -25,6 +25,34 @@ fn c16_drop_all() {
             if n != 0 { std::println!("{} {}: {} byte(s) survive drop", stringify!($set), what, n); bad += 1; }
         }
     }}; }
+    // solver witness first (filled in when a monolithic Kani harness fails)
+    // @WITNESS@
     one!(ml_dsa_44); one!(ml_dsa_65); one!(ml_dsa_87);
+    // degenerate contents: keys whose byte fields (rho, K, tr) are constant 0x00 / 0xFF, alone and together; derived public keys
+    macro_rules! degenerate { ($set:ident) => {{
+        use crate::$set as S;
+        use crate::traits::Signer;
+        let (pk, sk) = S::KG::keygen_from_seed(&[0x5Au8; 32]);
+        let skb = sk.into_bytes(); let pkb = pk.into_bytes();
+        for fill in [0x00u8, 0xFFu8] {
+            for (lo, hi, name) in [(0usize, 32usize, "rho"), (32, 64, "K"), (64, 128, "tr"), (0, 128, "rho,K,tr")] {
+                let mut b = skb; for x in &mut b[lo..hi] { *x = fill; }
+                if let Ok(k) = S::PrivateKey::try_from_bytes(b) {
+                    let d = k.get_public_key();
+                    let n = survivors(d); if n != 0 { std::println!("{} derived pk (sk {} = {:#04x}): {} byte(s) survive drop", stringify!($set), name, fill, n); bad += 1; }
+                    let n = survivors(k); if n != 0 { std::println!("{} sk with {} = {:#04x}: {} byte(s) survive drop", stringify!($set), name, fill, n); bad += 1; }
+                }
+            }
+            let mut b = pkb; for x in &mut b[0..32] { *x = fill; }
+            if let Ok(k) = S::PublicKey::try_from_bytes(b) {
+                let n = survivors(k); if n != 0 { std::println!("{} pk with rho = {:#04x}: {} byte(s) survive drop", stringify!($set), fill, n); bad += 1; }
+            }
+            let b = { let mut b = pkb; for x in b.iter_mut() { *x = fill; } b };
+            if let Ok(k) = S::PublicKey::try_from_bytes(b) {
+                let n = survivors(k); if n != 0 { std::println!("{} pk of constant bytes {:#04x}: {} byte(s) survive drop", stringify!($set), fill, n); bad += 1; }
+            }
+        }
+    }}; }
+    degenerate!(ml_dsa_44); degenerate!(ml_dsa_65); degenerate!(ml_dsa_87);
     assert!(bad == 0, "VERIF-PROPERTY-VIOLATED C16: {} key object(s) not fully erased on drop", bad);
 }
